@@ -1003,6 +1003,71 @@ func (w *world) svcAbandon() {
 	}
 }
 
+// restWriteProbe: the service safe points have ONE writer that registers - the gRPC UpdateServiceGCSafePoint, whose
+// load-compare-save runs under serviceSafePointLock (obligation save_service_sites) - and the REST interface only lists and
+// deletes. The probe asks the real router whether any other method on /gc/safepoint/{id} stores a registration (POST / PUT /
+// PATCH with the obvious bodies). If one does, it is driven like a request thread: parked at its own save (after its
+// comparison with the minimum) while gc_worker advances past the value, then released.
+func (w *world) restWriteProbe() {
+	w.reset()
+	inf := int64(math.MaxInt64)
+	call := func(id string, ttl int64, sp uint64) (*pdpb.UpdateServiceGCSafePointResponse, error) {
+		return w.x.S.UpdateServiceGCSafePoint(w.ctx, &pdpb.UpdateServiceGCSafePointRequest{Header: w.x.Header(), ServiceId: []byte(id), TTL: ttl, SafePoint: sp})
+	}
+	if _, err := call("gc_worker", inf, 40); err != nil {
+		return
+	}
+	bodies := []string{`{"safe_point":50,"ttl":1000}`, `{"safe_point":50,"ttl":1000,"service_id":"br"}`, `{"SafePoint":50,"TTL":1000}`}
+	for _, m := range []string{http.MethodPost, http.MethodPut, http.MethodPatch} {
+		for _, body := range bodies {
+			do := func() int {
+				rec := httptest.NewRecorder()
+				req := httptest.NewRequest(m, "/pd/api/v1/gc/safepoint/br", strings.NewReader(body))
+				req.Header.Set("Content-Type", "application/json")
+				w.api.ServeHTTP(rec, req)
+				return rec.Code
+			}
+			code := do()
+			w.R.Count(fmt.Sprintf("rest-write-probe:%s:http-%d", m, code))
+			e := find(w.all(), "br")
+			if e == nil {
+				continue
+			}
+			// a second way into the service safe points: is its compare-and-save atomic with the gRPC path?
+			rec := httptest.NewRecorder()
+			w.api.ServeHTTP(rec, httptest.NewRequest(http.MethodDelete, "/pd/api/v1/gc/safepoint/br", nil))
+			done := make(chan int, 1)
+			go func() {
+				w.b.Bind("rw")
+				w.b.Arm("rw", func(o kvx15.Op) bool { return o.Kind == kvx15.Save && o.Key == svcPrefix+"br" }, kvx15.Park)
+				c := do()
+				w.b.Disarm("rw")
+				w.b.Unbind()
+				done <- c
+			}()
+			trace := []string{"svc gc_worker inf 40", m + " /pd/api/v1/gc/safepoint/br " + body}
+			select {
+			case <-w.b.Parked("rw"):
+				r, err := call("gc_worker", inf, 100)
+				w.b.Release("rw", kvx15.Pass)
+				<-done
+				if e := find(w.all(), "br"); err == nil && e != nil && e.SafePoint < r.GetMinSafePoint() {
+					w.R.Violate("C15:registration-below-min-recorded:rest-write-outside-the-service-lock",
+						fmt.Sprintf("%s on the REST interface stores a service safe point with its own load-compare-save outside serviceSafePointLock: gc_worker was told min=%d while the request's save was pending, then service br was recorded at %d", m, r.GetMinSafePoint(), e.SafePoint),
+						append(trace, "(parked at its save)", "svc gc_worker inf 100", "release"))
+					return
+				}
+			case <-done:
+			case <-time.After(30 * time.Second):
+				panic("REST write neither parked nor finished")
+			}
+			w.R.Violate("C15:service-safe-point-writer-unknown-to-the-model",
+				fmt.Sprintf("%s on /gc/safepoint/{service_id} registers a service safe point (http %d); the model knows UpdateServiceGCSafePoint and the REST delete only", m, code), trace)
+			return
+		}
+	}
+}
+
 // heldRead: an interleaving at the granularity of single etcd requests. stored 100; U1 = UpdateGCSafePoint(200) is parked
 // before its write; G1 = GetGCSafePoint (lock-free) reads: etcd answers 100 and the answer is held on its way back; U1's
 // write goes through, U1 is acknowledged 200; U2 = UpdateGCSafePoint(150) starts after that; then G1's answer arrives.
@@ -1676,6 +1741,7 @@ func main() {
 	}
 	if *replay == "" {
 		w.svcRace()
+		w.restWriteProbe()
 		w.svcAbandon()
 		w.malformedProbe()
 		if c := w.heldRead(); c != nil {
